@@ -727,6 +727,13 @@ fn twin(seed: u64, batches: u64, bits: u32, entries: u32) {
             return;
         }
     };
+    // Everything relative resolves inside the sandbox: if the code under test loses a directory descriptor
+    // (AT_FDCWD instead of the twin's dirfd) the stray files land in a directory that is removed afterwards.
+    let stray = format!("{}/cwd", w.root);
+    if std::fs::create_dir(&stray).and_then(|()| std::env::set_current_dir(&stray)).is_err() {
+        vh::inconclusive("cannot enter the sandbox directory");
+        return;
+    }
     if let Err(e) = w.populate(&mut r) {
         vh::inconclusive(&format!("populate: {e}"));
         return;
@@ -883,6 +890,7 @@ fn probe(entries: u32) {
 
 /// set-up + use + drop cycles; markers bracket set-up (scenario 1) and drop (scenario 2)
 fn cycle(seed: u64, cycles: u64, sets: &[u32]) {
+    let _ = std::env::set_current_dir("/");
     let mut r = Rng::new(seed);
     let traced = marker::traced();
     if !traced {
